@@ -369,7 +369,10 @@ def scripted_family(run, fam, quick):
         late = [[R, D("c1"), S("c1", "op", True), rel("c1", 1), S("c1", "starttls")],
                 [R, D("c1"), S("c1", "op", True), S("c1", "op", True), rel("c1", 2), rel("c1", 1), S("c1", "starttls")]]
         pause = {"a": "sleep", "c": "", "i": 150, "k": "", "s": "", "hold": False}     # let the released handlers finish
-        out += [(b + [pause], {"unbind_route": "0", "tls": "starttls", "async_release": "1"}) for b in scen.scripted(run, late, consts)] * 4
+        # (the handler goes on 40 / 120 / 300 ms after its release: before, while and after the upgrade is made)
+        for b in scen.scripted(run, late, consts):
+            for ms in ("40", "40", "120", "300"):
+                out.append((b + [dict(pause, i=110 + int(ms))], {"unbind_route": "0", "tls": "starttls", "async_release": "1", "async_ms": ms}))
         return out
     elif fam == "ready":
         ok_addrs = ["", "ipv6", "ipv6-bare", "host", "port-only"]
